@@ -88,6 +88,18 @@ func (r *Run) Fail(property, invariant, signature, format string, a ...any) {
 	r.Logf("VIOLATION %s %s", invariant, signature)
 }
 
+// Reclass files the recorded violation under another signature (a scenario built for one recorded
+// finding reports whatever goes wrong in it as that finding); the original one is kept in the detail.
+func (r *Run) Reclass(signature string) {
+	if r.violation == nil {
+		return
+	}
+	v := r.violation
+	v.Detail = "[" + v.Signature + "] " + v.Detail
+	v.Signature = v.Property + "/" + signature
+	r.Logf("RECLASS %s", signature)
+}
+
 // Failed reports whether a violation has been recorded.
 func (r *Run) Failed() bool { return r.violation != nil }
 
